@@ -29,6 +29,21 @@ P_FORMS = {"cells": ["interval", "triangle", "quadrilateral", "tetrahedron", "pr
            "max_integrals": 3, "depth": 2, "maxdeg": 2, "max_qdeg": 2, "p_scheme": 0.0, "ncoef": (0, 2)}
 
 
+def scipy_available() -> bool:
+    """scipy (needed by generated numba modules that use Bessel functions) is installed into /verif/.deps by setup_cmd."""
+    from ..common import VERIF
+
+    deps = str(VERIF / ".deps")
+    if deps not in sys.path:
+        sys.path.append(deps)
+    try:
+        import scipy.special  # noqa: F401
+
+        return True
+    except Exception:
+        return False
+
+
 def make_shim():
     shim = types.ModuleType("numba")
 
@@ -246,8 +261,10 @@ def evaluate_expr(spec, wd):
 
 def shard(shard, nshards, n, seed):
     res = ShardResult()
+    have_scipy = scipy_available()
+    res.count("bessel-forms-generated" if have_scipy else "bessel-forms-excluded:scipy-not-importable")
     with scratch(f"vf-c18-{shard}-") as wd:
-        drive(strategies.form_specs(P_FORMS), lambda s: evaluate_form(s, wd), n, (PROP, seed, shard, "forms"), res, shrink_calls=30)
+        drive(strategies.form_specs(dict(P_FORMS, bessel=have_scipy)), lambda s: evaluate_form(s, wd), n, (PROP, seed, shard, "forms"), res, shrink_calls=30)
         drive(strategies.expr_specs({"maxdeg": 2}), lambda s: evaluate_expr(s, wd), max(1, n // 3), (PROP, seed, shard, "exprs"), res, shrink_calls=30)
     return res
 
